@@ -319,7 +319,8 @@ func init() {
 			"big-structs-4095", "big-structs-4096", "big-structs-9000", "big-array", "big-strings", "big-bytes",
 			"alias-slice", "alias-fields", "alias-map", "embedded", "embedded-deep", "embedded-slice",
 			"same-address-1", "same-address-2", "same-address-3", "same-name-a", "same-name-b", "same-name-a", "linked-list-100",
-			"linked-list-6000"}
+			"linked-list-6000", "float-key-map", "nan-key-f64", "nan-key-f32-str", "nan-keys-many", "nan-key-iface", "nan-key-struct",
+			"nan-key-array", "nan-key-complex", "nan-key-nested"}
 		for _, n := range names {
 			g.emit("sizeofnamed %s", n)
 		}
